@@ -23,7 +23,7 @@ is opaque to the kernel, so nothing is (or can be) proved *at* `Float`; the theo
 the 2.5e-5 / 1e-4 / 0.2 / 5e-5 accuracy figures, the accuracy of the Chebyshev fallback, of the
 downward step for `k = −½` and of the `normal` regime, float rounding, `Φ(±∞) ∈ {0,1}` at `Float`, the
 step from "law of `Z + E`" to its mixture form `∫ Φ((y−z)/o) dF_Z(z)` (independence + Fubini; the mixture form
-is taken as the Spec here and is what the oracle integrates), the analogous identity for the *density*, and the constant `0.83·√(o/(b−a))` of the noiseless regime for `c = 1`
+is taken as the Spec here and is what the oracle integrates; likewise the mixture density for the pdf), and the constant `0.83·√(o/(b−a))` of the noiseless regime for `c = 1`
 (`0.4·c·o/(b−a)` for `c ≥ 2` *is* proved: `noiseless_bound`).
 -/
 namespace Opda.Props.C06
@@ -156,6 +156,13 @@ theorem cdf_even_concave_model_eq_spec (d : Params ℝ) (k : ℕ) (hk : 1 ≤ k)
     (h : regime (realFns T ninf pinf) d = .nothing) (y : ℝ) :
     cdf (realFns T ninf pinf) d y = 1 - mixture k (d.o / (d.b - d.a)) ((d.b - y) / (d.b - d.a)) :=
   cdf_even_concave_eq_mixture T ninf pinf d k hk hc hcv hab hp h y
+
+/-- **Model = Spec for the density, even `c ≥ 2`** (both shapes): `(b−a)·pdf(y)` is the mixture density
+`h(loc) = ∫₀¹ dN(loc, scale²)(x) d(x^{c/2})`; the clip at `0` never acts. -/
+theorem pdf_even_model_eq_spec (d : Params ℝ) (k : ℕ) (hc : d.c = 2 * k + 2) (hab : d.a ≤ d.b)
+    (hp : pointMass (realFns T ninf pinf) d = false) (h : regime (realFns T ninf pinf) d = .nothing) (y : ℝ) :
+    (d.b - d.a) * pdf (realFns T ninf pinf) d y = mixtureDensity (k + 1) (d.o / (d.b - d.a)) (locOf d y) :=
+  pdf_even_eq_mixtureDensity T ninf pinf d k hc hab hp h y
 
 /-- **odd `c` (1, 3, …), convex: Model within `ε` of Spec** whenever the selected pieces tile `[0,1]` and are `ε`-accurate
 (the provable uniform bound: `ε ≤ 1.02·max_error` of the entry by C19; up to 8e-4 — the 2.5e-5 of the property is
